@@ -146,6 +146,7 @@ var dstVars = []dstVar{
 	{"prefix5-exact", 5, func(n int) int { return n }},
 	{"prefix0-plus7", 0, func(n int) int { return n + 7 }},
 	{"prefix3-short", 3, func(n int) int { return n / 2 }},
+	{"prefix0-plus40", 0, func(n int) int { return n + 40 }},
 }
 
 func mkDst(v dstVar, need int) []byte {
@@ -159,7 +160,7 @@ func mkDst(v dstVar, need int) []byte {
 	}
 	full := buf[:cap(buf)]
 	for i := v.prefix; i < len(full); i++ {
-		full[i] = 0x5A
+		full[i] = byte(0x5A + 31*i) // dirty spare capacity: looks like a previous result, not like zeros
 	}
 	return buf
 }
@@ -230,6 +231,9 @@ type tlcVec struct {
 	Len   int    `json:"len"`
 	Key   []int  `json:"key"`
 	Out   []int  `json:"out"`
+	// box vectors: contents Pat(seed, 32) of the caller's sharedKey array on entry to Precompute for which the model
+	// states PrecomputeBufferIndependent (0 = fresh zero array)
+	Bufseeds []int `json:"bufseeds"`
 }
 
 func TestDefinition(t *testing.T) {
@@ -243,6 +247,7 @@ func TestDefinition(t *testing.T) {
 	rng := vutil.Rand(1010)
 	nsb, nbox := 0, 0
 	var lowKey []byte
+	bufSeeds := map[int]bool{}
 	type lowCase struct{ nonce, msg, want []byte }
 	var lowCases []lowCase
 	err := vutil.ReadNDJSON(vutil.Env("VERIF_CASES", ""), func(line []byte) error {
@@ -264,6 +269,9 @@ func TestDefinition(t *testing.T) {
 			key = toBytes(v.Key)
 			if !bytes.Equal(c09ref.HSalsa20(shared, make([]byte, 16)), key) {
 				return fmt.Errorf("refimpl HSalsa20 differs from the TLC-evaluated box key (sseed=%d)", v.Sseed)
+			}
+			for _, b := range v.Bufseeds {
+				bufSeeds[b] = true
 			}
 			if v.Sseed == 0 {
 				lowKey = key
@@ -298,12 +306,41 @@ func TestDefinition(t *testing.T) {
 
 	// ---- low-order peer keys (decision cases): X25519 yields 0^32, so Precompute must return the TLC-evaluated
 	// LowOrderBoxKey and Seal must equal the TLC-evaluated boxes under it; Open must invert.
+	if !bufSeeds[0] || len(bufSeeds) < 3 {
+		t.Fatal("the model did not name the entry contents of Precompute's output array (bufseeds)")
+	}
+	// precomputeAll calls box.Precompute(pk, sk) into every kind of caller-owned array the model names - Pat(seed, 32)
+	// (seed 0 = fresh zero array), the result of a previous Precompute with another peer, and the same array twice in a
+	// row - and reports the entry contents for which the result is not `want`.
+	otherSk, otherPk := make([]byte, 32), []byte(nil)
+	rng.Read(otherSk)
+	otherPk = pubOf(otherSk)
+	precomputeAll := func(pk, sk, want []byte) (bad []string) {
+		try := func(name string, k *[32]byte) {
+			box.Precompute(k, a32(pk), a32(sk))
+			if !bytes.Equal(k[:], want) {
+				bad = append(bad, fmt.Sprintf("%s -> %s", name, hx(k[:])))
+			}
+		}
+		for b := range bufSeeds {
+			try(fmt.Sprintf("entry contents Pat(%d,32)", b), a32(c03ref.Pat(b, 32)))
+		}
+		var reused [32]byte
+		box.Precompute(&reused, a32(otherPk), a32(sk)) // the array now holds another peer's key
+		try("array reused after a Precompute with another peer", &reused)
+		try("same array, second call in a row", &reused)
+		return
+	}
 	for i, lp := range lowOrderPoints() {
 		sk := make([]byte, 32)
 		rng.Read(sk)
 		var k [32]byte
 		box.Precompute(&k, a32(lp), a32(sk))
 		out.Case(fmt.Sprintf("low-order|%d", i))
+		if bad := precomputeAll(lp, sk, lowKey); len(bad) > 0 {
+			e.fail("c10-precompute-depends-on-output-buffer", "box.Precompute with a low-order peer key: the result depends on what the caller's sharedKey array held before (it must be HSalsa20(0^32, 0^16), a function of the keys only)",
+				map[string]any{"peer": hx(lp), "sk": hx(sk), "want": hx(lowKey), "wrongFor": bad, "freshZeroArray": hx(k[:])})
+		}
 		if !bytes.Equal(k[:], lowKey) {
 			e.fail("c10-precompute-low-order", "box.Precompute with a low-order peer key is not HSalsa20(0^32, 0^16) (X25519 of a low-order point is 0^32)",
 				map[string]any{"peer": hx(lp), "sk": hx(sk), "got": hx(k[:]), "want": hx(lowKey)})
@@ -312,9 +349,16 @@ func TestDefinition(t *testing.T) {
 		for _, lc := range lowCases {
 			got := box.Seal(nil, lc.msg, a24(lc.nonce), a32(lp), a32(sk))
 			back, ok := box.Open(nil, lc.want, a24(lc.nonce), a32(lp), a32(sk))
-			if !bytes.Equal(got, lc.want) || !ok || !bytes.Equal(back, lc.msg) {
-				e.fail("c10-box-low-order", "box.Seal/Open with a low-order peer key differ from the definition under LowOrderBoxKey",
-					map[string]any{"peer": hx(lp), "len": len(lc.msg), "sealOK": bytes.Equal(got, lc.want), "openOK": ok})
+			// through a reused key array, as a caller looping over peers would do it
+			var reused [32]byte
+			box.Precompute(&reused, a32(otherPk), a32(sk))
+			box.Precompute(&reused, a32(lp), a32(sk))
+			got2 := box.SealAfterPrecomputation(nil, lc.msg, a24(lc.nonce), &reused)
+			back2, ok2 := box.OpenAfterPrecomputation(nil, lc.want, a24(lc.nonce), &reused)
+			if !bytes.Equal(got, lc.want) || !ok || !bytes.Equal(back, lc.msg) || !bytes.Equal(got2, lc.want) || !ok2 || !bytes.Equal(back2, lc.msg) {
+				e.fail("c10-box-low-order", "box.Seal/Open and SealAfterPrecomputation/OpenAfterPrecomputation (key array reused) with a low-order peer key differ from the definition under LowOrderBoxKey",
+					map[string]any{"peer": hx(lp), "len": len(lc.msg), "sealOK": bytes.Equal(got, lc.want), "openOK": ok,
+						"sealAfterPrecomputationOK": bytes.Equal(got2, lc.want), "openAfterPrecomputationOK": ok2})
 			}
 		}
 	}
@@ -348,6 +392,10 @@ func TestDefinition(t *testing.T) {
 				map[string]any{"skA": hx(skA), "pkB": hx(pkB), "got": hx(kAB[:]), "want": hx(want)})
 			continue
 		}
+		if bad := precomputeAll(pkB, skA, want); len(bad) > 0 {
+			e.fail("c10-precompute-depends-on-output-buffer", "box.Precompute: the result depends on what the caller's sharedKey array held before",
+				map[string]any{"skA": hx(skA), "pkB": hx(pkB), "want": hx(want), "wrongFor": bad})
+		}
 		nonce, msg := make([]byte, 24), make([]byte, []int{0, 1, 31, 32, 33, 64, 65, 200, 1000}[i%9]+rng.Intn(3))
 		rng.Read(nonce)
 		rng.Read(msg)
@@ -357,6 +405,50 @@ func TestDefinition(t *testing.T) {
 		if !bytes.Equal(got, exp) || !ok || !bytes.Equal(back, msg) {
 			e.fail("c10-box-mismatch", "box.Seal / box.Open (receiver side) differ from SecretBox under HSalsa20(X25519(sk, pk), 0^16)",
 				map[string]any{"skA": hx(skA), "skB": hx(skB), "nonce": hx(nonce), "len": len(msg), "sealOK": bytes.Equal(got, exp), "openOK": ok})
+		}
+	}
+	// ---- the other outputs the caller owns: sign.Sign / sign.Open / box.SealAnonymous / box.OpenAnonymous appending to a
+	// dst whose spare capacity is dirty (every arrangement of dstVars): result = kept prefix || f(inputs), nothing else
+	{
+		seed := make([]byte, 32)
+		rng.Read(seed)
+		spk, ssk, err := sign.GenerateKey(bytes.NewReader(seed))
+		if err != nil {
+			t.Fatal(err)
+		}
+		rsk := make([]byte, 32)
+		rng.Read(rsk)
+		rpk := pubOf(rsk)
+		for _, n := range []int{0, 1, 31, 32, 33, 64, 200} {
+			m := make([]byte, n)
+			rng.Read(m)
+			esk := make([]byte, 32)
+			rng.Read(esk)
+			sig := ed25519.Sign(ed25519.PrivateKey(ssk[:]), m)
+			wantSm := append(append([]byte(nil), sig...), m...)
+			wantAnon, err := box.SealAnonymous(nil, m, a32(rpk), bytes.NewReader(esk))
+			if err != nil {
+				t.Fatal(err)
+			}
+			for _, v := range dstVars {
+				out.Case(fmt.Sprintf("dirty-dst|%s|%d", v.name, n))
+				chk := func(api string, need int, want []byte, f func(dst []byte) ([]byte, bool)) {
+					dst := mkDst(v, need)
+					prefix := append([]byte(nil), dst...)
+					got, ok := f(dst)
+					if exp := append(prefix, want...); !ok || !bytes.Equal(got, exp) {
+						e.fail("c10-output-depends-on-dst-contents", api+": the result is not (kept prefix of out) || (function of the inputs) when out has a used (non-zero) spare capacity",
+							map[string]any{"api": api, "dst": v.name, "len": n, "ok": ok, "firstDiff": firstDiff(got, exp), "got": hx(got), "want": hx(exp)})
+					}
+				}
+				chk("sign.Sign", n+64, wantSm, func(d []byte) ([]byte, bool) { return sign.Sign(d, m, ssk), true })
+				chk("sign.Open", n, m, func(d []byte) ([]byte, bool) { return sign.Open(d, wantSm, spk) })
+				chk("box.SealAnonymous", n+48, wantAnon, func(d []byte) ([]byte, bool) {
+					r, err := box.SealAnonymous(d, m, a32(rpk), bytes.NewReader(esk))
+					return r, err == nil
+				})
+				chk("box.OpenAnonymous", n, m, func(d []byte) ([]byte, bool) { return box.OpenAnonymous(d, wantAnon, a32(rpk), a32(rsk)) })
+			}
 		}
 	}
 	if e.bad > 0 {
